@@ -38,7 +38,9 @@ use datafusion_physical_plan::union::{InterleaveExec, UnionExec};
 use datafusion_physical_plan::windows::{BoundedWindowAggExec, WindowAggExec, create_window_expr};
 use datafusion_common::tree_node::TreeNodeRecursion;
 use datafusion_execution::{RecordBatchStream, SendableRecordBatchStream};
-use datafusion_physical_plan::execution_plan::{ChildrenPropertiesMode, ReplaceChildrenOptions};
+use datafusion_physical_plan::execution_plan::{Boundedness, ChildrenPropertiesMode, EmissionType, ReplaceChildrenOptions};
+use datafusion_physical_plan::stream::RecordBatchStreamAdapter;
+use datafusion_physical_expr::EquivalenceProperties;
 use datafusion_physical_plan::{DisplayAs, DisplayFormatType, ExecutionPlan, InputOrderMode, PlanProperties};
 use futures::{Stream, StreamExt};
 use std::pin::Pin;
@@ -47,7 +49,7 @@ use parking_lot::Mutex;
 use serde::{Deserialize, Serialize};
 use std::collections::{BTreeMap, BTreeSet};
 use std::sync::Arc;
-use std::sync::atomic::{AtomicUsize, Ordering};
+use std::sync::atomic::{AtomicBool, AtomicUsize, Ordering};
 
 pub const SRC_MARK: &str = "INJECTED source error";
 pub const MEM_MARK: &str = "INJECTED memory refusal";
@@ -263,14 +265,15 @@ pub struct Spec {
     pub drop_after: Option<(usize, usize)>,
     /// stop driving (and drop everything) after this many driver steps
     pub stop_at: Option<usize>,
-    /// C19/C20 detection demos: wrap the plan in a deliberately defective operator
+    /// C19 yielding part: 0 = finite gated sources; 1 = endless always-ready cooperative sources declared
+    /// bounded; 2 = the same declared unbounded
     #[serde(default)]
-    pub planted: u8,
+    pub endless: u8,
 }
 
 impl Spec {
     pub fn new(shape: Shape, budget: Option<usize>, batch_size: usize) -> Spec {
-        Spec { shape, budget, batch_size, faults: vec![], drop_after: None, stop_at: None, planted: 0 }
+        Spec { shape, budget, batch_size, faults: vec![], drop_after: None, stop_at: None, endless: 0 }
     }
 }
 
@@ -516,20 +519,28 @@ fn arc<T: ExecutionPlan + 'static>(t: T) -> Plan {
 
 // ------------------------------------------------------------------ builder
 
+/// One leaf of the plan, in fault-addressing order (`Fault::Source::s`).
+pub struct SrcInfo {
+    /// None: an always-ready, re-executable source (not driven by the event order)
+    pub gated: Option<Arc<GatedSourceExec>>,
+    pub batches: Vec<usize>,
+    /// ready sources: the scripted error of partition p was handed out
+    pub error_seen: Vec<Arc<AtomicBool>>,
+    /// endless sources: per partition (batches handed out, live streams)
+    pub endless: Vec<Arc<EndlessCounters>>,
+}
+
 pub struct Builder<'a> {
     spec: &'a Spec,
     pub sources: Vec<Arc<GatedSourceExec>>,
+    pub infos: Vec<SrcInfo>,
 }
 
 impl<'a> Builder<'a> {
-    /// a gated source over layout `d`, column names `<prefix>k, <prefix>v, <prefix>id`
-    fn src(&mut self, d: Data, prefix: &str) -> Plan {
-        let s = self.sources.len();
-        let names: Vec<String> = ["k", "v", "id"].iter().map(|n| format!("{prefix}{n}")).collect();
-        let schema = int_schema(&names.iter().map(|x| x.as_str()).collect::<Vec<_>>());
+    fn scripts(&self, s: usize, d: Data, schema: &SchemaRef) -> Vec<Vec<Item>> {
         let mut scripts: Vec<Vec<Item>> = vec![];
         for (p, batches) in data(d).iter().enumerate() {
-            let mut items: Vec<Item> = batches.iter().map(|b| Item::Batch(int_batch(&schema, b))).collect();
+            let mut items: Vec<Item> = batches.iter().map(|b| Item::Batch(int_batch(schema, b))).collect();
             for f in &self.spec.faults {
                 if let Fault::Source { s: fs, p: fp, k } = f {
                     if *fs == s && *fp == p && *k <= batches.len() {
@@ -540,9 +551,60 @@ impl<'a> Builder<'a> {
             }
             scripts.push(items);
         }
+        scripts
+    }
+
+    /// an endless, always-ready source behind the `CooperativeExec` wrapper the planner puts on such leaves
+    fn endless_src(&mut self, d: Data, prefix: &str) -> Plan {
+        let names: Vec<String> = ["k", "v", "id"].iter().map(|n| format!("{prefix}{n}")).collect();
+        let schema = int_schema(&names.iter().map(|x| x.as_str()).collect::<Vec<_>>());
+        let nparts = data(d).len();
+        let counters: Vec<Arc<EndlessCounters>> = (0..nparts).map(|_| Default::default()).collect();
+        self.infos.push(SrcInfo { gated: None, batches: vec![usize::MAX; nparts], error_seen: vec![], endless: counters.clone() });
+        let mut eq = EquivalenceProperties::new(Arc::clone(&schema));
+        if is_sorted(d) {
+            eq.add_ordering(ordering(vec![asc(col(&names[0], 0)), asc(col(&names[2], 2))]));
+        }
+        let boundedness = if self.spec.endless == 2 { Boundedness::Unbounded { requires_infinite_memory: false } } else { Boundedness::Bounded };
+        let props = PlanProperties::new(eq, Partitioning::UnknownPartitioning(nparts), EmissionType::Incremental, boundedness);
+        let e: Plan = Arc::new(EndlessSourceExec { schema, layout: d, counters, props: Arc::new(props) });
+        Arc::new(datafusion_physical_plan::coop::CooperativeExec::new(e))
+    }
+
+    /// an always-ready source that can be executed any number of times (every execution replays the script):
+    /// the build side of `NestedLoopJoinExec`, whose memory-limited fallback executes its left child again
+    fn ready_src(&mut self, d: Data, prefix: &str) -> Plan {
+        if self.spec.endless > 0 {
+            return self.endless_src(d, prefix);
+        }
+        let s = self.infos.len();
+        let names: Vec<String> = ["k", "v", "id"].iter().map(|n| format!("{prefix}{n}")).collect();
+        let schema = int_schema(&names.iter().map(|x| x.as_str()).collect::<Vec<_>>());
+        let scripts = self.scripts(s, d, &schema);
+        let flags: Vec<Arc<AtomicBool>> = scripts.iter().map(|_| Arc::new(AtomicBool::new(false))).collect();
+        self.infos.push(SrcInfo { gated: None, batches: data(d).iter().map(|b| b.len()).collect(), error_seen: flags.clone(), endless: vec![] });
+        let props = PlanProperties::new(
+            EquivalenceProperties::new(Arc::clone(&schema)),
+            Partitioning::UnknownPartitioning(scripts.len()),
+            EmissionType::Incremental,
+            Boundedness::Bounded,
+        );
+        Arc::new(ReadySourceExec { schema, scripts, flags, props: Arc::new(props) })
+    }
+
+    /// a gated source over layout `d`, column names `<prefix>k, <prefix>v, <prefix>id`
+    fn src(&mut self, d: Data, prefix: &str) -> Plan {
+        if self.spec.endless > 0 {
+            return self.endless_src(d, prefix);
+        }
+        let s = self.infos.len();
+        let names: Vec<String> = ["k", "v", "id"].iter().map(|n| format!("{prefix}{n}")).collect();
+        let schema = int_schema(&names.iter().map(|x| x.as_str()).collect::<Vec<_>>());
+        let scripts = self.scripts(s, d, &schema);
         let ord = if is_sorted(d) { Some(ordering(vec![asc(col(&names[0], 0)), asc(col(&names[2], 2))])) } else { None };
         let g = GatedSourceExec::new(&format!("{prefix}{d:?}"), schema, scripts, ord);
         self.sources.push(Arc::clone(&g));
+        self.infos.push(SrcInfo { gated: Some(Arc::clone(&g)), batches: data(d).iter().map(|b| b.len()).collect(), error_seen: vec![], endless: vec![] });
         g
     }
 }
@@ -658,8 +720,8 @@ fn bounded_window(p: Plan, part: &str, ord: &str, arg: &str) -> Plan {
     arc(BoundedWindowAggExec::try_new(vec![e], p, InputOrderMode::Sorted, true).expect("harness: BoundedWindowAggExec"))
 }
 
-pub fn build_plan(spec: &Spec) -> (Plan, Vec<Arc<GatedSourceExec>>) {
-    let mut b = Builder { spec, sources: vec![] };
+pub fn build_plan(spec: &Spec) -> (Plan, Vec<Arc<GatedSourceExec>>, Vec<SrcInfo>) {
+    let mut b = Builder { spec, sources: vec![], infos: vec![] };
     use Shape::*;
     let plan: Plan = match spec.shape {
         FilterProject => {
@@ -701,7 +763,7 @@ pub fn build_plan(spec: &Spec) -> (Plan, Vec<Arc<GatedSourceExec>>) {
             smj(l, r, "lk", "rk", JoinType::Full)
         }
         NestedLoopJoin => {
-            let l = coalesce(b.src(Data::B, "l"));
+            let l = coalesce(b.ready_src(Data::B, "l"));
             let r = b.src(Data::A, "r");
             let f = lt_filter(&l, "lk", &r, "rk");
             arc(NestedLoopJoinExec::try_new(l, r, Some(f), &JoinType::Left, None).expect("harness: NestedLoopJoinExec"))
@@ -786,7 +848,7 @@ pub fn build_plan(spec: &Spec) -> (Plan, Vec<Arc<GatedSourceExec>>) {
             arc(NestedLoopJoinExec::try_new(l, r, Some(f), &JoinType::Inner, None).expect("harness: NestedLoopJoinExec"))
         }
     };
-    (plan, b.sources)
+    (plan, b.sources, b.infos)
 }
 
 // ------------------------------------------------------------------ environment
@@ -794,7 +856,7 @@ pub fn build_plan(spec: &Spec) -> (Plan, Vec<Arc<GatedSourceExec>>) {
 /// What the check inspects after a run (beyond the RunRecord).
 pub struct Probe {
     pub pool: Arc<HarnessPool>,
-    pub sources: Vec<Arc<GatedSourceExec>>,
+    pub sources: Vec<SrcInfo>,
     pub spill: Arc<SpillBackend>,
     pub consumer: Arc<ConsumerStats>,
 }
@@ -802,7 +864,10 @@ pub struct Probe {
 impl Probe {
     /// the scripted error of source s / partition p was handed to the plan
     pub fn source_ended(&self, s: usize, p: usize) -> bool {
-        self.sources[s].gates[p].lock().ended
+        match &self.sources[s].gated {
+            Some(g) => g.gates[p].lock().ended,
+            None => self.sources[s].error_seen[p].load(Ordering::SeqCst),
+        }
     }
 }
 
@@ -840,12 +905,12 @@ pub fn make_ctx(spec: &Spec) -> (Arc<TaskContext>, Arc<HarnessPool>, Arc<SpillBa
 /// Builds a fresh world for `spec`; the probe is left in `slot`. `wrap` lets a check put
 /// its own operator on top of the plan (detection demos).
 pub fn build_world(spec: &Spec, slot: &Slot, wrap: &dyn Fn(Plan, &Spec) -> Plan) -> World {
-    let (plan, sources) = build_plan(spec);
+    let (plan, sources, infos) = build_plan(spec);
     let plan = wrap(plan, spec);
     let consumer: Arc<ConsumerStats> = Default::default();
     let plan = consumer_model(plan, Arc::clone(&consumer));
     let (ctx, pool, spill) = make_ctx(spec);
-    *slot.lock() = Some(Probe { pool, sources: sources.clone(), spill: spill.clone(), consumer });
+    *slot.lock() = Some(Probe { pool, sources: infos, spill: spill.clone(), consumer });
     World {
         plan,
         sources,
@@ -854,6 +919,155 @@ pub fn build_world(spec: &Spec, slot: &Slot, wrap: &dyn Fn(Plan, &Spec) -> Plan)
         drop_after: spec.drop_after,
         max_steps: spec.stop_at.unwrap_or(600),
         spill: Some(spill.stats.clone()),
+    }
+}
+
+// ------------------------------------------------------------------ always-ready, re-executable source
+
+pub struct ReadySourceExec {
+    schema: SchemaRef,
+    scripts: Vec<Vec<Item>>,
+    flags: Vec<Arc<AtomicBool>>,
+    props: Arc<PlanProperties>,
+}
+
+impl std::fmt::Debug for ReadySourceExec {
+    fn fmt(&self, f: &mut std::fmt::Formatter<'_>) -> std::fmt::Result {
+        write!(f, "ReadySourceExec")
+    }
+}
+
+impl DisplayAs for ReadySourceExec {
+    fn fmt_as(&self, _t: DisplayFormatType, f: &mut std::fmt::Formatter) -> std::fmt::Result {
+        write!(f, "ReadySourceExec")
+    }
+}
+
+impl ExecutionPlan for ReadySourceExec {
+    fn name(&self) -> &'static str {
+        "ReadySourceExec"
+    }
+    fn properties(&self) -> &Arc<PlanProperties> {
+        &self.props
+    }
+    fn children(&self) -> Vec<&Arc<dyn ExecutionPlan>> {
+        vec![]
+    }
+    fn replace_children(self: Arc<Self>, _children: Vec<Plan>, _: ReplaceChildrenOptions) -> Result<Plan> {
+        Ok(self)
+    }
+    fn apply_expressions(&self, _f: &mut dyn FnMut(&Arc<dyn PhysicalExpr>) -> Result<TreeNodeRecursion>) -> Result<TreeNodeRecursion> {
+        Ok(TreeNodeRecursion::Continue)
+    }
+    fn with_new_children(self: Arc<Self>, _children: Vec<Plan>) -> Result<Plan> {
+        Ok(self)
+    }
+    fn execute(&self, partition: usize, _context: Arc<TaskContext>) -> Result<SendableRecordBatchStream> {
+        let flag = Arc::clone(&self.flags[partition]);
+        let items = self.scripts[partition].clone().into_iter().map(move |it| match it {
+            Item::Batch(b) => Ok(b),
+            Item::Error(e) => {
+                flag.store(true, Ordering::SeqCst);
+                Err(DataFusionError::Execution(e))
+            }
+        });
+        Ok(Box::pin(RecordBatchStreamAdapter::new(Arc::clone(&self.schema), futures::stream::iter(items))))
+    }
+}
+
+// ------------------------------------------------------------------ endless source
+
+#[derive(Debug, Default)]
+pub struct EndlessCounters {
+    pub batches: AtomicUsize,
+    pub live: AtomicUsize,
+}
+
+/// Never `Pending`, never ends: batch i of partition p holds two rows; sorted layouts have non-decreasing keys
+/// (co-partitioned ones: keys of parity p), unsorted ones cycle through keys 1..3.
+pub struct EndlessSourceExec {
+    schema: SchemaRef,
+    layout: Data,
+    counters: Vec<Arc<EndlessCounters>>,
+    props: Arc<PlanProperties>,
+}
+
+impl std::fmt::Debug for EndlessSourceExec {
+    fn fmt(&self, f: &mut std::fmt::Formatter<'_>) -> std::fmt::Result {
+        write!(f, "EndlessSourceExec")
+    }
+}
+
+impl DisplayAs for EndlessSourceExec {
+    fn fmt_as(&self, _t: DisplayFormatType, f: &mut std::fmt::Formatter) -> std::fmt::Result {
+        write!(f, "EndlessSourceExec")
+    }
+}
+
+struct EndlessStream {
+    schema: SchemaRef,
+    layout: Data,
+    partition: i64,
+    i: i64,
+    counters: Arc<EndlessCounters>,
+}
+
+impl Stream for EndlessStream {
+    type Item = Result<RecordBatch>;
+    fn poll_next(mut self: Pin<&mut Self>, _cx: &mut Context<'_>) -> Poll<Option<Self::Item>> {
+        let i = self.i;
+        self.i += 1;
+        self.counters.batches.fetch_add(1, Ordering::SeqCst);
+        let p = self.partition;
+        let rows: Vec<Row> = (0..2i64)
+            .map(|row| {
+                let k = match self.layout {
+                    Data::S | Data::T => 2 * (i / 2) + p,
+                    Data::M => i / 2,
+                    _ => (i + row) % 3 + 1,
+                };
+                r(k, 13 + (i * 7 + row) % 50, i * 2 + row)
+            })
+            .collect();
+        Poll::Ready(Some(Ok(int_batch(&self.schema, &rows))))
+    }
+}
+
+impl Drop for EndlessStream {
+    fn drop(&mut self) {
+        self.counters.live.fetch_sub(1, Ordering::SeqCst);
+    }
+}
+
+impl RecordBatchStream for EndlessStream {
+    fn schema(&self) -> SchemaRef {
+        Arc::clone(&self.schema)
+    }
+}
+
+impl ExecutionPlan for EndlessSourceExec {
+    fn name(&self) -> &'static str {
+        "EndlessSourceExec"
+    }
+    fn properties(&self) -> &Arc<PlanProperties> {
+        &self.props
+    }
+    fn children(&self) -> Vec<&Arc<dyn ExecutionPlan>> {
+        vec![]
+    }
+    fn replace_children(self: Arc<Self>, _children: Vec<Plan>, _: ReplaceChildrenOptions) -> Result<Plan> {
+        Ok(self)
+    }
+    fn apply_expressions(&self, _f: &mut dyn FnMut(&Arc<dyn PhysicalExpr>) -> Result<TreeNodeRecursion>) -> Result<TreeNodeRecursion> {
+        Ok(TreeNodeRecursion::Continue)
+    }
+    fn with_new_children(self: Arc<Self>, _children: Vec<Plan>) -> Result<Plan> {
+        Ok(self)
+    }
+    fn execute(&self, partition: usize, _context: Arc<TaskContext>) -> Result<SendableRecordBatchStream> {
+        let c = Arc::clone(&self.counters[partition]);
+        c.live.fetch_add(1, Ordering::SeqCst);
+        Ok(Box::pin(EndlessStream { schema: Arc::clone(&self.schema), layout: self.layout, partition: partition as i64, i: 0, counters: c }))
     }
 }
 
@@ -968,6 +1182,58 @@ pub fn consumer_model(plan: Plan, stats: Arc<ConsumerStats>) -> Plan {
         plan,
         Arc::new(move |s, _| Box::pin(ConsumerStream { schema: s.schema(), inner: Some(s), stats: Arc::clone(&stats) })),
     )
+}
+
+pub struct RunOut {
+    pub trace: mc_core::explore::Trace,
+    pub rec: chk_plan::evt::RunRecord,
+    pub probe: Probe,
+}
+
+pub fn run_spec(spec: &Spec, prefix: &[usize], wrap: &'static (dyn Fn(Plan, &Spec) -> Plan + Sync)) -> RunOut {
+    let slot: Slot = Default::default();
+    let s2 = Arc::clone(&slot);
+    let sp = spec.clone();
+    let build = move || build_world(&sp, &s2, wrap);
+    let (trace, rec) = chk_plan::evt::run_one(&build, prefix);
+    let probe = slot.lock().take().expect("probe");
+    RunOut { trace, rec, probe }
+}
+
+pub fn no_wrap(p: Plan, _: &Spec) -> Plan {
+    p
+}
+
+/// Smallest FairSpillPool limit of a fixed grid (fractions of the peak reservation of the unbounded run) under
+/// which the fault-free default-order run still completes with the same rows and spills at least one file.
+/// Returns (limit, spill files created).
+pub fn calibrate(shape: Shape, batch_size: usize) -> Option<(usize, usize)> {
+    let ok = |o: &RunOut| !o.rec.deadlock && o.rec.execute_error.is_none() && o.rec.outputs.iter().all(|x| x.error.is_none() && x.finished);
+    let rows = |o: &RunOut| {
+        let mut v: Vec<String> = o.rec.outputs.iter().flat_map(|x| rows_text(&x.batches)).collect();
+        v.sort();
+        v
+    };
+    let unb = run_spec(&Spec::new(shape, None, batch_size), &[], &no_wrap);
+    let peak = unb.probe.pool.peak.load(Ordering::SeqCst);
+    if !ok(&unb) || peak == 0 {
+        return None;
+    }
+    let want = rows(&unb);
+    let mut best = None;
+    for div in [(3, 4), (1, 2), (1, 3), (1, 4), (1, 6), (1, 8), (1, 16)] {
+        let limit = peak * div.0 / div.1;
+        if limit == 0 {
+            continue;
+        }
+        let spec = Spec::new(shape, Some(limit), batch_size);
+        let Ok(o) = std::panic::catch_unwind(std::panic::AssertUnwindSafe(|| run_spec(&spec, &[], &no_wrap))) else { continue };
+        let created = o.probe.spill.stats.created.load(Ordering::SeqCst);
+        if ok(&o) && created >= 1 && (rows(&o) == want || !shape.exact_rows()) {
+            best = Some((limit, created));
+        }
+    }
+    best
 }
 
 /// every output row as text (any column type), for multiset comparison
